@@ -19,6 +19,7 @@ inductive OEv (α : Type) where
   | downgrade (h : Nat)
   | upgrade (k : Nat)
   | dropWeak (k : Nat)
+  | cloneWeak (k : Nat)
   | intoShared
 
 /-- one call; a call on a handle that does not exist (any more) is not a call: the world is unchanged -/
@@ -35,6 +36,7 @@ def OWorld.step {α} (eqv : α → α → Bool) (hash : α → Nat) (dflt : α) 
   | .downgrade h => match w.downgrade h with | some (w', _) => w' | none => w
   | .upgrade k => match w.upgrade k with | some (w', _) => w' | none => w
   | .dropWeak k => (w.dropWeak k).getD w
+  | .cloneWeak k => match w.cloneWeak k with | some (w', _) => w' | none => w
   | .intoShared => match w.intoShared with | some (w', _) => w' | none => w
 
 /-- number of `true` entries -/
